@@ -211,6 +211,23 @@ Fixpoint total (b : bytes -> step) (inner : bytes -> nat) (fuel : nat) (d : byte
       end
   end.
 
+(** LabeledUnicast.parse / MPLSVPN.parse call parse_mpls_label_stack inside every iteration.
+    AS FOUND the label parser gets the whole rest of the NLRI field (`nlri_data[1:]`), so the
+    work of all iterations together is quadratic; REPAIRED
+    (build/proposed/c11-label-stack-bound.diff) it gets the octets of the current NLRI only. *)
+Definition label_iters (d : bytes) : nat :=
+  match run (body label_stack never) (S (length d)) d with Done n | Raised n => n | OutOfFuel => 0%nat end.
+Definition pre (addpath : bool) : nat := if addpath then 4%nat else 0%nat.
+Definition nlri_octets (addpath : bool) (d : bytes) : nat :=
+  N.to_nat (ceil8 (at_ (pre addpath) d)).
+Definition lu_inner_orig (addpath : bool) (d : bytes) : nat := label_iters (drop (pre addpath + 1) d).
+Definition lu_inner (addpath : bool) (d : bytes) : nat :=
+  label_iters (slice (pre addpath + 1) (pre addpath + 1 + nlri_octets addpath d) d).
+Definition lu_total_orig (addpath : bool) (d : bytes) : nat :=
+  total (body (bitlen_nlri addpath) never) (lu_inner_orig addpath) (S (length d)) d.
+Definition lu_total (addpath : bool) (raises : bytes -> bool) (d : bytes) : nat :=
+  total (body (bitlen_nlri addpath) raises) (lu_inner addpath) (S (length d)) d.
+
 (** the recursive call sites: SRv6EndXSID / SRv6LANEndXSID / SRv6Locator.unpack walk 2+2 sub-TLVs
     of `data[fixed:]` and call `LinkState.registered_tlvs[t].unpack(sub_value)`, which may be one
     of these three again.  [depth] is the recursion fuel; [skip t] is the fixed part the callee
@@ -352,7 +369,7 @@ Definition modelled_loops : list entry := [
   (* while nlri_data *)
   ("yabgp/message/attribute/nlri/ipv6_unicast.py", "IPv6Unicast.parse", 270917806124499, 1, [prefix6 false; prefix6 true]);
   (* while nlri_data *)
-  ("yabgp/message/attribute/nlri/labeled_unicast/__init__.py", "LabeledUnicast.parse", 192783909797378, 1, [bitlen_nlri false; bitlen_nlri true]);
+  ("yabgp/message/attribute/nlri/labeled_unicast/__init__.py", "LabeledUnicast.parse", 218146085880738, 1, [bitlen_nlri false; bitlen_nlri true]);
   (* while nlri_data *)
   ("yabgp/message/attribute/nlri/linkstate.py", "BGPLS.parse", 215165781479941, 1, [tlv 4 2 2]);
   (* while descriptors *)
@@ -362,7 +379,7 @@ Definition modelled_loops : list entry := [
   (* while data *)
   ("yabgp/message/attribute/nlri/linkstate.py", "BGPLS.parse_node_descriptor", 188939119181195, 1, [tlv 4 2 2]);
   (* while value *)
-  ("yabgp/message/attribute/nlri/mpls_vpn.py", "MPLSVPN.parse", 11301458035165, 1, [bitlen_nlri false; bitlen_nlri true]);
+  ("yabgp/message/attribute/nlri/mpls_vpn.py", "MPLSVPN.parse", 215897225341786, 1, [bitlen_nlri false; bitlen_nlri true]);
   (* while len(data) >= 3 *)
   ("yabgp/message/attribute/nlri/mpls_vpn.py", "MPLSVPN.parse_mpls_label_stack", 77497252748358, 303, [label_stack]);
   (* while data *)
